@@ -35,7 +35,7 @@ FIX_DATE6, FIX_TIME4, FIX_DATE8, FIX_TIME6, FIX_GSCTL = '260926', '1234', '20260
 
 FAULTS = ['bad_code', 'too_long', 'missing_elem', 'missing_seg', 'unknown_seg', 'unknown_outside', 'dup_st', 'se_count',
           'ge_count', 'env_elem', 'too_many', 'trailing_sep', 'st03_bad', 'missing_se', 'sub_elem', 'ge_nonnum',
-          'too_many_st', 'missing_ge']
+          'too_many_st', 'missing_ge', 'composite']
 
 
 # ------------------------------------------------------------------------------------ documents
@@ -267,6 +267,36 @@ def inject(rnd, doc, kind, special=None):
                 i, j, val = rnd.choice(cands)
                 putv(seg, i, j, val)
                 return '%s@%s%02d' % (kind, seg['id'], i + 1)
+        return None
+    if kind == 'composite':
+        # element errors reported on a COMPOSITE node (err_ele.ele_ref_num is then the composite's id, e.g. C022, not a data
+        # element number): more components than the composite has children (code 3), a required composite left empty
+        # (code 2), a not-used composite filled (code 5)
+        rnd.shuffle(pos)
+        for k in pos[:80]:
+            seg = doc[k]
+            cands = []
+            for i, cn in enumerate(seg['node'].children):
+                if not cn.is_composite():
+                    continue
+                present = i < len(seg['els']) and any(seg['els'][i])
+                if present:
+                    cands.append((i, 'many'))
+                    cands.append((i, 'many'))
+                    if cn.usage == 'R' and i > 0:
+                        cands.append((i, 'empty'))
+                elif cn.usage == 'N':
+                    cands.append((i, 'fill'))
+            if cands:
+                i, how = rnd.choice(cands)
+                cn = seg['node'].children[i]
+                if how == 'many':
+                    putv(seg, i, len(cn.children), special or 'X')
+                elif how == 'empty':
+                    seg['els'][i] = ['']
+                else:
+                    putv(seg, i, 0, special or 'X')
+                return 'composite:%s@%s%02d' % (how, seg['id'], i + 1)
         return None
     if kind == 'missing_seg':
         cands = [k for k in pos if doc[k]['node'].usage == 'R' and not doc[k]['node'].is_first_seg_in_loop()]
@@ -807,13 +837,12 @@ def compare_model(real, mout, mask=True):
         rcrash = '-' if real['ack_exc'] is None else '%s:%s' % (real['ack_exc'][0], real['ack_exc'][2])
         if (mcrash == '-') != (rcrash == '-') or (mcrash != '-' and rcrash.split(':')[0] not in mcrash.split(':')[0].split('|')):
             bad.append(('Ack.crash', 'model %s real %s' % (mcrash, rcrash)))
-        mlines = canon_lines([common.unesc(x) for x in f[5:]])
-        rlines = canon_lines(real_lines(real))
+        # exact comparison: since the repair the AK3/IK3 lines of one segment and TA105 of the 999 are written in sorted order,
+        # which is what the model writes
+        mlines = [common.unesc(x) for x in f[5:]]
+        rlines = list(real_lines(real))
         if mask:
             mlines, rlines = mask_gs08(mlines), mask_gs08(rlines)
-        if real['kind'] == '999':
-            # TA105 of the 999 is `list(set(codes))[0]`: any member, hash-order dependent
-            mlines, rlines = [mask_ta105(l) for l in mlines], [mask_ta105(l) for l in rlines]
         if mlines != rlines:
             k = next((i for i in range(min(len(mlines), len(rlines))) if mlines[i] != rlines[i]), min(len(mlines), len(rlines)))
             bad.append(('Ack.ack%s' % real['kind'], 'line %d: model %r real %r (model %d lines, real %d)' % (
@@ -1237,7 +1266,7 @@ def run(tier):
     res.assumptions = ['validation completes (x12n_document returns); runs that raise elsewhere are counted under out_of_scope_crashes (C07)',
                        'error reports are attributed to the source segment being processed when err_handler was called (callback counter)',
                        'int(GE01) is evaluated by Python and passed to the model as number / bad / absent',
-                       'list(set(..)) order of AK3 lines of one segment is compared as a multiset; TA105 of a 999 (list(set(codes))[0]) is masked',
+                       'AK3/IK3 lines of one segment and TA105 of a 999 are compared exactly (sorted order since the repair)',
                        'GS08 of the 997 is compared in C06 only']
     return res.finish(trusted=common.TRUSTED_COMMON + [
         'modelled: err_handler (add_*/…_error/close_*), err_isa/gs/st/seg/ele counts and ack codes, error_997_visitor, '
